@@ -166,17 +166,20 @@ structure RefOutcome where
   refTo : Nat
   implicit : Bool
 
+/-- `rposition` over the non-REF components with the same name -/
+def sameNameIdx (env : Env) (existing : List (Str × Modifiers)) (name : Str) : Option Nat :=
+  let idxs := (List.range existing.length).filter (fun i =>
+    match existing[i]? with
+    | some (n, m) => !m.contains Modifiers.REF && nameEq env name n
+    | none => false)
+  idxs.getLast?
+
 /-- the generic `resolve_reference`; `names`/`mods` describe the existing components of the kind -/
 def resolveReference (env : Env) (container : String) (inherit : Nat)
     (existing : List (Str × Modifiers)) (name : Str) (mods : Modifiers)
     (location modLoc : Span) : A α (Modifiers × Option RefOutcome) := do
   let s ← get
-  let sameName : Option Nat :=
-    let idxs := (List.range existing.length).filter (fun i =>
-      match existing[i]? with
-      | some (n, m) => !m.contains Modifiers.REF && nameEq env name n
-      | none => false)
-    idxs.getLast?
+  let sameName : Option Nat := sameNameIdx env existing name
   let _ := container
   if mods.contains Modifiers.NEW && mods.contains Modifiers.REF then
     aerr "ref-conflicting-modifiers" [modLoc]
@@ -255,11 +258,14 @@ def noteReferenceError (input : Str) (noteSpan defSpan : Span) (defNote : Option
   | none => aerr "note-in-reference" [noteRefSpan input noteSpan, Span.pos defSpan.stop]
 
 /-- the `intermediate_data` branch of `ingredient`: checks + `resolve_intermediate_ref` -/
-def ingrInter (i : PIngredient α) (igr : Ingredient (ScalableValue α)) (d : Loc InterData) :
-    A α (Ingredient (ScalableValue α)) := do
+def ingrInterChecks (i : PIngredient α) (igr : Ingredient (ScalableValue α)) : A α Unit := do
   if !igr.modifiers.contains Modifiers.REF then apanic "intermediate data without REF"
   let invalid := Modifiers.RECIPE ||| Modifiers.HIDDEN ||| Modifiers.NEW
   if (igr.modifiers.bits &&& invalid) != 0 then aerr "inter-ref-conflicting-modifiers" [i.modifiers.span]
+
+def ingrInter (i : PIngredient α) (igr : Ingredient (ScalableValue α)) (d : Loc InterData) :
+    A α (Ingredient (ScalableValue α)) := do
+  ingrInterChecks i igr
   match ← resolveInterRef d with
   | some rel => return { igr with relation := rel }
   | none => return igr
